@@ -5,7 +5,7 @@ from .c01 import classify_block_writes
 
 PID = "C18"
 META = {
-    "explanation": "Static analysis of BlockWriter::insert and of who can mutate a block buffer, on the MIR of the current tree including a release-like configuration (debug assertions and overflow checks off): the strict order comparison's false edge diverges and, together with the empty-block arm, cuts every path to the buffer appends; last_key is refreshed on both arms; the buffer has no other appender; every index entry goes through the same checked insert with the flushed block's last key. Decides the enforcement mechanism on every path, not sortedness of runtime data.",
+    "explanation": "Static analysis of BlockWriter::insert and of who can mutate a block buffer, on the MIR of the current tree including a release-like configuration (debug assertions and overflow checks off): the strict order comparison's false edge diverges and, together with the empty-block arm, cuts every path to the buffer appends; last_key is refreshed on both arms; the buffer has no other appender; every index entry goes through the same checked insert with the flushed block's last key. Decides the enforcement mechanism on every path, not sortedness of runtime data. 'Emits' is about bytes: the shared file-wellformedness rules (rules/shared.py: varint / entry framing, counting sink, write_all) are re-run so that the bytes leaving the writer decode to the keys that were checked.",
     "assumptions": ["lexicographic Ord on [u8] from core", "a panic aborts the insert (no catch_unwind inside grenad)"],
 }
 
@@ -18,6 +18,9 @@ def run(ck):
         ck.guard("C18-R3", r3_lastkey_life, ck, F)
         ck.guard("C18-R4", r4_index_checked, ck, F)
         ck.guard("C18-R5", r5_limit_asserts, ck, F)
+        from . import shared
+        # "emits": the bytes that leave the writer decode to the keys that were checked
+        shared.file_wellformed(ck, F, "C18-R6")
     ck.trusted += ["rustc MIR construction", "core::cmp lexicographic slice ordering"]
 
 
